@@ -733,6 +733,41 @@ fn mpmc_notified_drop_contended() {
     assert_eq!(r2.as_mut().poll(&mut Context::from_waker(&w2)), Poll::Ready(Some(1)), "C10: the value is buffered but the woken receiver does not get it");
 }
 
+/// a parked send future is cancelled while another thread receives: the value ends in exactly one place
+fn mpmc_cancel_vs_receive(cap: usize) {
+    let (tx, rx) = sh::generic_channel::<LoomRaw, u32, FixedHeapBuf<u32>>(cap);
+    let _ = rx.try_receive();
+    for i in 0..cap as u32 {
+        tx.try_send(100 + i).unwrap();
+    }
+    let mut fut = Box::pin(tx.send(5));
+    let (w1, _c1) = counting_waker();
+    assert!(fut.as_mut().poll(&mut Context::from_waker(&w1)).is_pending());
+    let rx2 = rx.clone();
+    let h = loom::thread::spawn(move || {
+        let mut got = vec![];
+        for _ in 0..=cap {
+            if let Ok(v) = rx2.try_receive() {
+                got.push(v);
+            }
+        }
+        got
+    });
+    let back = unsafe { fut.as_mut().get_unchecked_mut().cancel() };
+    let mut got = h.join().unwrap();
+    while let Ok(v) = rx.try_receive() {
+        got.push(v);
+    }
+    let delivered = got.contains(&5);
+    assert!(delivered ^ (back == Some(5)), "C08: the cancelled value must end in exactly one place: handed back {:?}, received {:?}", back, got);
+}
+fn mpmc_cancel_vs_receive_cap0() {
+    mpmc_cancel_vs_receive(0)
+}
+fn mpmc_cancel_vs_receive_cap1() {
+    mpmc_cancel_vs_receive(1)
+}
+
 /// cap 1: value 1 buffered, send(2) parked; a receive races with try_send(3): 2 took effect before 3
 fn mpmc_refill_race() {
     let (tx, rx) = sh::generic_channel::<LoomRaw, u32, FixedHeapBuf<u32>>(1);
@@ -1183,6 +1218,8 @@ const SCENARIOS: &[(&str, &str, Scenario)] = &[
     ("event_set_vs_reset", "C14", event_set_vs_reset),
     ("mpmc_last_receiver_clears", "hook:C11", mpmc_last_receiver_clears),
     ("mpmc_refill_race", "C09", mpmc_refill_race),
+    ("mpmc_cancel_vs_receive_cap0", "C01,C08", mpmc_cancel_vs_receive_cap0),
+    ("mpmc_cancel_vs_receive_cap1", "C01,C08", mpmc_cancel_vs_receive_cap1),
     ("mpmc_notified_drop_contended", "C10", mpmc_notified_drop_contended),
     ("mutex_notified_drop_contended_fair", "C03", mutex_notified_drop_contended_fair),
     ("mutex_notified_drop_contended_unfair", "C03", mutex_notified_drop_contended_unfair),
